@@ -295,3 +295,38 @@ PROPS["C12"] = {
     "nontrivial": lambda il, meta: any(l.startswith("E ") for l in il) and meta.get("note", "history=0") not in ("history=0", "history=1", "history=2"),
     "partial": "thread interleavings, process-wide statics, HashMap random state and the choice of parser back end are facts about the compiled code: they are stress / differential runs against the model's single answer, not theorems",
 }
+
+
+# ---------------------------------------------------------------- C14
+def c14_compare_model(il, ml, meta):
+    if il and il[0].startswith("SKIP"):
+        return True
+    return il == ml
+
+
+def c14_compare_spec(il, sl, meta, exempt):
+    # the property is a relation between two runs of the implementation
+    if il and il[0].startswith("SKIP"):
+        exempt[il[0]] = exempt.get(il[0], 0) + 1
+        return None
+    return "VERDICT same" in il and ("RULES same" in il or "RULES n/a" in il)
+
+
+PROPS["C14"] = {
+    "rule": "valid-by-construction, single-violation and grammar-random documents, each with one rewrite: permutation of definitions / selections (60% of the selection lists) / arguments / variable definitions, consistent renaming of operations / fragments (with their spreads) / variables (definitions and all uses) / aliases (response-key equalities preserved), wrapping a part of a selection list in an untyped inline fragment, replacing every directive-free spread of a non-recursive fragment by the typed inline fragment (dropping the definition when unused), print and re-parse with the parser's own printer (compared only when the re-parsed AST equals the original up to positions), permutation of the schema's definitions and of fields / arguments / enum values / union members / interface lists; original and rewritten input validated with the default plan; required: same accept/reject and (except for wrapping / inlining) same set of reporting rules; both runs also compared with the extracted model. distinct = distinct (schema, document, rewrite); non-trivial = the document is rejected (some rule reports) or the rewrite is an inlining / wrapping",
+    "compare_model": c14_compare_model,
+    "compare_spec": c14_compare_spec,
+    "nontrivial": lambda il, meta: any("reject" in l for l in il[:1]) or meta.get("note") in ("inline-spread", "wrap-inline"),
+    "partial": "the external printer (Display of documents) is outside the model; the invariance theorems are about the specification predicates and the model, the implementation is compared run against run",
+}
+
+
+# ---------------------------------------------------------------- C17
+def c17_nontrivial(il, meta):
+    return "RESULT replace" in il and meta.get("note") != "mask=0" and len(il) > 12
+
+
+PROPS["C17"] = {
+    "rule": "random schema-aware documents x a family of probe transformers: the identity (nothing rewritten), one hook at a time (11 hooks: definition, operation, fragment, selection set, field, fragment spread, inline fragment, directive, argument, value, variable definition), random hook combinations and all hooks, each hook logging every call and rewriting a pseudo-randomly chosen subset of its nodes in a recognisable way (moduli 1..3, offsets 0..6); plus ALL 127 Keep/Replace patterns over selection lists of length 0..6 (exhaustive). Compared: the call log (kind and identity of every hook call, in order), keep/replace of the result, and the complete resulting document (names, aliases, positions, type conditions, list orders and lengths) against the extracted model. distinct = distinct (document, probe); non-trivial = the probe rewrites something (result is a replacement) and at least 10 hook calls",
+    "nontrivial": c17_nontrivial,
+}
